@@ -234,6 +234,14 @@ def run(ctx, rep):
                 t = b.blocks[sbk]["t"]
                 atoms.append(render(simplify(expr_tree(P, b, t["d"], depth=7, expand_params=0))) + f"=={lab}")
             txt = " ; ".join(atoms)
+            # polarity of the size test on the keep edge: sh_size != 0 (an FDE of an empty section is dropped, as the allocator does not count it)
+            import decide as _dc
+            at_ = {str(a[0]): a[1] for a in _dc.atoms_at(P, F, b, fde_store[0])}
+            sz = [(k, v) for k, v in at_.items() if "sh_size" in k and k.rstrip(")").endswith(", 0")]
+            pol = any((k.startswith("bin:Ne(") and v is True) or (k.startswith("bin:Eq(") and v is False) for k, v in sz)
+            rep.ob("reservation", "writer-keep-polarity", pol,
+                   "an FDE is kept on the sh_size != 0 edge" if pol else f"the FDE keep store is not on the `sh_size != 0` edge ({sz}): frames of empty sections are kept and those of "
+                   "non-empty sections dropped, while the allocator reserves entries for non-empty sections only", b.file, b.line)
             rep.ob("reservation", "writer-keep-condition", "address(" in txt and "sh_size" in txt and "FDE_PC_BEGIN_OFFSET" in txt or ("address(" in txt and "sh_size" in txt and "Eq(" in txt),
                    f"kept iff pc-begin relocation's section has an address and sh_size != 0: {txt[:500]}", b.file, b.line)
     # allocator side
